@@ -356,26 +356,28 @@ def malformed_cases(ctx, op, n):
 
 
 def file_cases(ctx, op, extends=(False,)):
+    """bundled structures (set equality through the drivers). quick: 3CRO chains A/B at 8.5 and 6.0 A; thorough adds the other
+    option combinations, all chains of 3CRO (4 chains), 3CRO_H and the 1AK4 files"""
     out = []
     src = {'pdb': os.path.join(PDBDIR, '3CRO.pdb')}
-    for cut in (8.5, 6.0):
-        for ext in extends:
-            out.append(mk(op, src, cut, False, 'A', 'B', False, False, False, ext, 'file:3CRO'))
-            out.append(mk(op, src, cut, False, 'B', 'A', False, True, True, ext, 'file:3CRO'))
-    out.append(mk(op, src, 6.0, True, 'A', 'B', False, False, False, extends[-1], 'file:3CRO:allchains'))
-    out.append(mk(op, src, 6.0, True, 'A', 'B', True, False, True, False, 'file:3CRO:allchains'))
+    ext = extends[-1]
+    out.append(mk(op, src, 8.5, False, 'A', 'B', False, False, False, ext, 'file:3CRO'))
+    out.append(mk(op, src, 6.0, False, 'B', 'A', False, True, True, False, 'file:3CRO'))
     if ctx.thorough:
-        out.append(mk(op, src, 8.5, True, 'A', 'B', False, True, False, extends[-1], 'file:3CRO:allchains'))
-        out.append(mk(op, src, 8.5, True, 'A', 'B', False, False, True, False, 'file:3CRO:allchains'))
+        out.append(mk(op, src, 6.0, False, 'A', 'B', False, False, False, ext, 'file:3CRO'))
+        out.append(mk(op, src, 8.5, False, 'B', 'A', True, False, True, False, 'file:3CRO'))
+        out.append(mk(op, src, 6.0, True, 'A', 'B', False, False, False, ext, 'file:3CRO:allchains'))
+        out.append(mk(op, src, 6.0, True, 'A', 'B', True, False, True, False, 'file:3CRO:allchains'))
+        out.append(mk(op, src, 8.5, True, 'A', 'B', False, True, False, ext, 'file:3CRO:allchains'))
         out.append(mk(op, src, 8.5, False, 'L', 'R', True, True, True, False, 'file:3CRO'))
         srch = {'pdb': os.path.join(PDBDIR, '3CRO_H.pdb')}
         for noH in (False, True):
-            out.append(mk(op, srch, 6.0, False, 'A', 'B', False, noH, False, extends[-1], 'file:3CRO_H'))
+            out.append(mk(op, srch, 6.0, False, 'A', 'B', False, noH, False, ext, 'file:3CRO_H'))
             out.append(mk(op, srch, 5.0, False, 'A', 'B', False, noH, True, False, 'file:3CRO_H'))
         for fn in sorted(os.listdir(os.path.join(PDBDIR, '1AK4'))):
             if fn.endswith('.pdb'):
                 s2 = {'pdb': os.path.join(PDBDIR, '1AK4', fn)}
-                out.append(mk(op, s2, 8.5, False, 'A', 'B', False, False, False, extends[-1], 'file:1AK4'))
+                out.append(mk(op, s2, 8.5, False, 'A', 'B', False, False, False, ext, 'file:1AK4'))
                 out.append(mk(op, s2, 5.0, False, 'B', 'A', False, True, True, False, 'file:1AK4'))
     return out
 
